@@ -1,5 +1,6 @@
 import JSight.Props.C06
 import JSight.TreeStrip
+import JSight.LoaderProofs
 /-!
 # C13 — Meaning is invariant under surface syntax: the part that is a theorem
 
@@ -8,8 +9,11 @@ sequence the scanner delivers for a valid text — which is all the validator ev
 the token slices — depends on the stripped tree only: two texts that differ in inter-token blanks
 yield the same sequence of event types (spans move with the tokens). Property order is `C01_order_indep`
 / the union semantics of C03 (the spec is a function of the member *set* per key); rule order is C08.
-String escapes, line ends, comments, annotation spelling go through unquoting and the schema
-scanner / loader: validated against the code (harness `c13-metamorphic`, `schema-diff`, `unquote-diff`).
+Schema side, line ends: in the loader model (`Loader`, compared with the real `GetAST()` by `loader-diff`)
+a new-line event directly after another one changes nothing, so LF / CR / CRLF line ends and blank lines
+load identically (`C13_newline_idempotent`, `C13_newline_run_absorbed`).
+String escapes, comments, annotation spelling go through unquoting, the schema scanner and the loader:
+validated against the code (harness `c13-metamorphic`, `schema-diff`, `unquote-diff`, `loader-diff`).
 -/
 namespace Props.C13
 open JsonScan
@@ -23,5 +27,15 @@ theorem C13_whitespace_invariant (allow : Bool) (v v' : JA) (hv : v.Valid) (hv' 
   refine ⟨_, _, Props.C06.C06_events_of_tree allow v hv ws0 ws1 h0 h1 bs hbs,
     Props.C06.C06_events_of_tree allow v' hv' ws0' ws1' h0' h1' bs' hbs', ?_⟩
   rw [evs_types, evs_types, hs]
+
+/-- schema side: a second new-line event directly after a first one does not change the loader's state
+(CRLF = two new-line events; blank lines = more) -/
+theorem C13_newline_idempotent (src : Array UInt8) (st st' : Loader.St) (e1 e2 : SchemaScan.Ev)
+    (h1 : e1.ty = .newLine) (h2 : e2.ty = .newLine) (h : Loader.step src st e1 = .ok st') :
+    Loader.step src st' e2 = .ok st' := Loader.C13_newline_idempotent src st st' e1 e2 h1 h2 h
+
+theorem C13_newline_run_absorbed (src : Array UInt8) (st st' : Loader.St) (e1 : SchemaScan.Ev) (es : List SchemaScan.Ev)
+    (h1 : e1.ty = .newLine) (hes : ∀ e ∈ es, e.ty = .newLine) (h : Loader.step src st e1 = .ok st') :
+    es.foldlM (Loader.step src) st' = .ok st' := Loader.C13_newline_run_absorbed src st st' e1 es h1 hes h
 
 end Props.C13
